@@ -21,6 +21,7 @@
 
 #include <algorithm>
 #include <array>
+#include <cmath>
 #include <cstring>
 #include <random>
 #include <sstream>
@@ -100,7 +101,8 @@ int Util::parseSize(const std::string& input, int64_t* output) {
     } catch (...) {
       return -1;
     }
-    if (end_pos != num.length() || v < 0) {
+    // reject nan/inf as well: they compare false against everything
+    if (end_pos != num.length() || !std::isfinite(v) || v < 0) {
       return -1;
     }
 
@@ -121,6 +123,12 @@ int Util::parseSize(const std::string& input, int64_t* output) {
         break;
       default:
         return -1;
+    }
+    // converting a double that does not fit the integer type is undefined
+    // behaviour; the result also has to fit the int64_t output
+    constexpr double kLimit = 9223372036854775808.0; // 2^63
+    if (v >= kLimit || static_cast<double>(size) + v >= kLimit) {
+      return -1;
     }
     size += v;
     pos = unit_pos + 1;
